@@ -26,7 +26,8 @@ class CsrDecWorld(World):
     stub_components = ("leaf CSR buses (stub runs)", "mock registers (flat runs)",
                        "CSR initiator (seeded agent)")
     fault_kinds = ("byzantine_cycle", "both_strobes", "unassigned_address", "window_edge_address",
-                   "abort", "gap", "rejected_re_add", "queried_or_elaborated_while_being_populated")
+                   "abort", "gap", "rejected_re_add", "queried_or_elaborated_while_being_populated",
+                   "memory_map_assigned_through_setter")
     assumptions = (
         "Amaranth's Python RTL simulator executes the elaborated netlist faithfully",
         "idle subordinates drive zero read data (as the property assumes of well-behaved buses)",
@@ -42,7 +43,7 @@ class CsrDecWorld(World):
     def _gen_tree(self, rng, aw, depth, kind):
         node = {"t": "dec", "aw": aw, "al": rng.choice([0, 0, 1, 2]), "subs": [],
                 "mid": rng.choice(["elab", "patterns", "resources"]) if rng.chance(0.12) else None,
-                "mid_at": rng.below(3)}
+                "mid_at": rng.below(3), "own_map": int(rng.chance(0.06))}
         if rng.chance(0.08) and aw >= 2:
             # a decoder wrapped around a single subordinate of its own address width
             sub = {"t": "leaf", "aw": aw} if kind == "stub" else \
@@ -135,6 +136,10 @@ class CsrDecWorld(World):
             return mux.bus
         dec = hw.construct(csr.Decoder, addr_width=node["aw"], data_width=dw,
                            alignment=node["al"])
+        if node.get("own_map"):
+            dec.bus.memory_map = MemoryMap(addr_width=node["aw"], data_width=dw,
+                                           alignment=node["al"])
+            counter.append("own_map")
         mods.append(dec)
         for k_, sc in enumerate(node["subs"]):
             if node.get("mid") and k_ == node.get("mid_at", 0) + 1:
@@ -191,6 +196,7 @@ class CsrDecWorld(World):
         root = self._build(config["tree"], dw, mods, leaves, counter)
         stats.fault("rejected_re_add", counter.count("readd"))
         stats.fault("queried_or_elaborated_while_being_populated", counter.count("mid"))
+        stats.fault("memory_map_assigned_through_setter", counter.count("own_map"))
         aw = config["tree"]["aw"]
         sim = hw.build_sim(hw.make_top(*mods))
         lw = list(self._leaf_windows(root.memory_map, 0, [l["map"] for l in leaves]))
@@ -315,6 +321,7 @@ class CsrDecWorld(World):
         root = self._build(config["tree"], dw, mods, leaves, counter)
         stats.fault("rejected_re_add", counter.count("readd"))
         stats.fault("queried_or_elaborated_while_being_populated", counter.count("mid"))
+        stats.fault("memory_map_assigned_through_setter", counter.count("own_map"))
         aw = config["tree"]["aw"]
         infos = list(root.memory_map.all_resources())
         tree_regs = {}
